@@ -22,3 +22,5 @@ Your task: produce {n} DIFFERENT, independent small changes to the source (each 
 For each change, write a demonstration: a Go test file (to be placed in the appropriate package directory of the worktree, e.g. <pkgdir>/zz_demo_test.go) that FAILS with the change applied and PASSES on the unchanged code. The first line of the file must be a comment of the form `// package directory: <path relative to repo root>`. Keep demos self-contained (fakes/stubs inside the test file; no network, no Mesos, no Consul server - use in-process fakes such as net/http/httptest if a client library must be driven).
 
 Deliverables - create directory /tmp/seed-{pid}/ containing for i in 1..{n}: `m<i>/patch.diff` (output of `git diff` for the source change only, NOT including the demo test), `m<i>/demo_test.go`, `m<i>/notes.md` (what the change is, what specific situation is needed for it to manifest, and the exact commands you ran with their outcome: build, existing tests, demo failing with change, demo passing without). Verify all four facts yourself by actually running the commands. Never use `git stash` (the stash is shared between worktrees and other people work in sibling worktrees): to switch between changed and clean code save `git diff > file` and use `git apply` / `git apply -R`. Do not include core/environment/runcounter.txt (a test artefact) in a patch. Leave the worktree clean at the end (`git -C /tmp/wt-{pid} checkout -- . && git -C /tmp/wt-{pid} clean -fd`). Report back a short summary (what each change is and what it needs to manifest).""")
+if len(sys.argv) > 3:
+    print("\nAVOID repeating these changes, which have been produced already (pick other functions/mechanisms): " + sys.argv[3])
